@@ -94,6 +94,7 @@ class Inference:
         self.failing = None  # (op idx, policy, choices) of the first failing async run
         self.keep_choices = keep_choices
         self.arena_touch_max = 0
+        self.dead_stores = []
 
     def v(self, **kw):
         self.viol.append(E.Violation(**kw))
@@ -167,7 +168,16 @@ class Inference:
                 prep = ent["prep"]
                 allowed = np.array(sorted(own(ti) for ti in e["fm_inputs"]) + [E.CONST], dtype=np.int64)
                 start = mem
-                ref = NpuRun(prep, start.clone(), None, E.SEQUENTIAL, ent["uid_base"], allowed).run()
+                ref = NpuRun(prep, start.clone(), None, E.SEQUENTIAL, ent["uid_base"], allowed)
+                ref.track_dead_stores = True
+                ref.was_read = {}
+                ref.run()
+                for d_ in ref.dead_stores:
+                    a_, b_ = prep.prog[d_["op"]], prep.prog[d_["earlier_op"]]
+                    # only a double write by two stripes / depth slices of the SAME operator is an overlap of the partition; an
+                    # element nobody reads (e.g. skipped by a stride) that is later reused by another tensor is not
+                    if stripe_group(a_) == stripe_group(b_):
+                        self.dead_stores.append(dict(d_, npu_op=op.idx, kind=getattr(a_, "kind", "?"), earlier_kind=getattr(b_, "kind", "?")))
                 self.stats["schedules"] += 1
                 self.stats["steps"] += ref.steps
                 self.stats["kernel_ops"] += prep.n_kernel
@@ -279,6 +289,14 @@ class Inference:
         return self
 
 
+def stripe_group(it):
+    """T0 identity of the source operator a kernel operation belongs to: everything except where its stripe / slice lives"""
+    if not getattr(it, "is_kernel", False):
+        return ("dma", id(it))
+    return (it.kind, it.sub, it.ifm.region, it.ifm.sy, it.ifm.sx, it.ifm.sc, it.ifm.zp, it.ifm.bits, it.ofm.region, it.ofm.sy, it.ofm.sx, it.ofm.sc,
+            it.ofm.zp, it.ofm.bits, it.ow, it.kh, it.kw, it.sy, it.sx, it.dil, it.act, it.act_min, it.act_max, it.rounding, tuple(it.ofm_scale))
+
+
 def _kind(v, prep):
     i = v.get("op")
     if isinstance(i, int) and 0 <= i < len(prep.prog):
@@ -304,3 +322,96 @@ class NpuRun(E.Run):
         if neg.any():
             bad = bad | (neg & ~np.isin(t, self.allowed))
         return bad
+
+
+# ======================================================================================================== values
+class ValueRun:
+    """One inference at VALUE level: arena bytes start as seeded garbage, inputs are written by the client through the source
+    model's interface, CPU operators execute with the reference kernels on the arena bytes, each Ethos-U operator executes its
+    command stream sequentially on the NPU datapath model."""
+
+    def __init__(self, plan, garbage_seed=0):
+        self.plan = plan
+        self.garbage_seed = garbage_seed
+        self.weight_logs = {}
+
+    def run(self, inputs):
+        """inputs: list of ndarrays in model input order.  -> list of output ndarrays (model output order)"""
+        import numpy as np
+        from . import refint
+        from .npu import arith
+
+        plan = self.plan
+        m = plan.m
+        rs = np.random.RandomState(self.garbage_seed & 0x7FFFFFFF)
+        arena = rs.randint(0, 256, size=max(plan.arena_size, 16), dtype=np.uint8)
+        shram = rs.randint(0, 256, size=HW.ACCEL[plan.acc]["shram_bytes"], dtype=np.uint8)
+        fast = None
+        offs = plan.offsets
+
+        def put(ti, v):
+            t = m.tensors[ti]
+            o = offs[ti]
+            b = np.ascontiguousarray(np.asarray(v).astype(t.dtype)).view(np.uint8).reshape(-1)
+            arena[o:o + len(b)] = b
+
+        def get(ti):
+            t = m.tensors[ti]
+            if t.data is not None:
+                return t.const()
+            o = offs[ti]
+            return arena[o:o + t.nbytes()].view(t.dtype).reshape(t.shape).copy()
+
+        for ti, v in zip(m.inputs, inputs):
+            put(ti, v)
+        it = refint.Interp(m)
+        for op in m.ops:
+            if op.idx in plan.eops:
+                ent = plan.programs[op.idx]
+                e = ent["e"]
+                if ent["err"]:
+                    raise arith.NotModelled("payload/stream error")
+                mem = E.Memory()
+                region_map_values(plan, e, mem)
+                vm = arith.VMem(mem.regions)
+                vm.add("arena", arena)
+                vm.add("flash:%d" % op.idx, np.frombuffer(bytes(e["flash"]), dtype=np.uint8).copy() if len(e["flash"]) else np.zeros(16, np.uint8))
+                shram[:] = rs.randint(0, 256, size=len(shram), dtype=np.uint8)
+                vm.add("shram", shram)
+                if any(r[0] == "fast" for r in mem.regions.values()):
+                    if fast is None or len(fast) < e["fast_t"].elems():
+                        fast = rs.randint(0, 256, size=max(16, e["fast_t"].elems()), dtype=np.uint8)
+                    vm.add("fast", fast)
+                if any(r[0].startswith("scratch:") for r in mem.regions.values()):
+                    vm.add("scratch:%d" % op.idx, rs.randint(0, 256, size=max(16, e["scratch_t"].elems()), dtype=np.uint8))
+                dp = arith.Datapath(plan.acc, vm)
+                dp.run(ent["prep"].prog)
+                self.weight_logs[op.idx] = dp.weight_log
+            else:
+                for ti in op.inputs:
+                    if ti >= 0:
+                        it.vals[ti] = np.asarray(get(ti)).astype(np.float64 if m.tensors[ti].type == "FLOAT32" else np.int64)
+                fn = getattr(it, "op_" + op.name.split(":")[0], None)
+                if fn is None:
+                    raise refint.Unsupported(op.name)
+                fn(op)
+                for ti in op.outputs:
+                    if offs[ti] >= 0:
+                        put(ti, it.vals[ti])
+        return [np.asarray(get(ti)) for ti in m.outputs]
+
+
+def region_map_values(plan, e, mem):
+    offs = plan.offsets
+    mem.map_region(0, "flash:%d" % e["op"].idx, 0, max(len(e["flash"]), 0))
+    so = offs[e["scratch_t"].idx]
+    if so < 0:
+        mem.map_region(1, "scratch:%d" % e["op"].idx, 0, e["scratch_t"].elems())
+    else:
+        mem.map_region(1, "arena", so, e["scratch_t"].elems())
+    fo = offs[e["fast_t"].idx]
+    if fo < 0 or plan.spilling:
+        mem.map_region(2, "fast", 0, e["fast_t"].elems())
+    else:
+        mem.map_region(2, "arena", fo, e["fast_t"].elems())
+    mem.map_region(HW.SHRAM_REGION, "shram", 0, HW.ACCEL[plan.acc]["shram_bytes"])
